@@ -269,7 +269,7 @@ def relStep (d : RelDrv) (ws : List String) : RelDrv × String :=
     | some pls =>
       let r := trackRun [] pls
       let handed := relSortStrings (r.2.1.map (fun t => s!"{esc t.name}/{fmtHash t.hash}/{t.size}/{t.sent}"))
-      (d, s!"handed={if handed.isEmpty then "-" else ",".intercalate handed} logged={fmtNames r.2.2} stuck={if r.1.isEmpty then 0 else 1}")
+      (d, s!"handed={if handed.isEmpty then "-" else ",".intercalate handed} logged={fmtNames r.2.2} stuck={if trackStuck d.fx r.1 then 1 else 0}")
     | none => bad
   | _ => bad
 
